@@ -618,6 +618,27 @@ def star_session_script(rng, name, seconds, replay_age=(2, 3)):
     return Script(name, ops, {"suite": "node", "noshrink": True})
 
 
+def close_during_attempt_script(rng, name, at=70):
+    """node 1's first ping reaches node 2 again (a restarted instance dialling, or a late duplicate): node 2 holds an attempt for node 1's address next to the
+    live session.  Then the session is closed by node 1's close message: node 2 removes the peer AND its routes at once, whatever the attempt does later"""
+    ports = [1, 2]
+    ops = mesh(rng, 2) + ["nconnect 1 p2"] + drain(6)
+    t = 0
+    while t < at:
+        t += 1
+        ops += second(ports, t)
+    frame = lambda a, b: hx(ipv4_packet(ip4(a), ip4(b), rng.bytes(3)))
+    ops += ["nframe 2 " + frame(2, 1)] + drain(3)
+    ops += ["nreplay w0 2 orig", "ndrop 0", "ndrop 0"]
+    ops += ["nseal 1 p2 ff"] + drain(3)
+    ops += ["nframe 2 " + frame(2, 1)] + drain(3)
+    for _ in range(5):
+        t += 1
+        ops += ["ntime %d" % t, "nhk 2", "ndropfrom 2"]
+        ops += ["nframe 2 " + frame(2, 1)] + drain(2)
+    return Script(name, ops, {"suite": "node", "noshrink": True})
+
+
 def stale_attempt_script(rng, name, which, at, mode="router", dev="tun"):
     """one genuine handshake datagram (w0 = ping, w1 = pong, w2 = peng of the first handshake) is replayed verbatim from its original source at second
     `at`, and nothing else: the attempt it may open lives until it is given up (120 retries) - the established connection, its routes and the payload in
